@@ -497,7 +497,7 @@ def check(prop, tier):
             for u in base.get(r['group'], {}).get('units', []):
                 if cfg['units'] == '*' or u in cfg['units']:
                     cand.append(u)
-        if structural and cand and use_cex and not safety_only:
+        if structural and cand and use_cex:
             try:
                 import cexsearch
                 bounded_runs = cexsearch.run_units(sorted(set(cand)))
